@@ -470,18 +470,496 @@ theorem seq_increasing_partial (c : Cfg) (nodes : List (Nat × Nat)) (now : Nat)
     (hi : SeqInv s) (h : subTick c nodes now t rq s = .ok s') : SeqInv s' :=
   subTick_seq c nodes now t rq s s' hi h
 
-/-- **`delivery_exact_partial`** = `collected_is_queued`: while publishing is enabled and the
-subscription is not expiring, whatever the monitored items hand over on an elapsed interval is appended
-to the subscription's queue (never dropped, whether or not a request is queued); with `pairUp_msgs`
-(queue → transmission in order) and `responses_pair` (transmission → responses in order) every
-collected value reaches the client once, in order.  Missing for the full statement: the end-to-end
-ghost-log invariant `sampled = delivered ++ in flight` over whole histories including the item queues
-(C24 overflow discards) — the three links are proved separately, not composed. -/
+/-- **`delivery_exact_partial`** = `collected_is_queued`, the entry link of delivery: while publishing is
+enabled and the subscription is not expiring, whatever the monitored items hand over on an elapsed
+interval is appended to the subscription's queue (never dropped, whether or not a request is queued).
+From there on `delivery_exact_flow` (below, over whole histories) shows that it keeps its place in
+sent ++ queued responses ++ subscription queue for ever.  Still missing for the statement per *item*:
+the ghost log of the values sampled into the item queues (with the C24 overflow discards) and its
+composition with these two theorems. -/
 theorem delivery_exact_partial (c : Cfg) (hk : c.keepOnNone = true) (nodes : List (Nat × Nat)) (now : Nat)
     (rq : Bool) (s s' : Subn) (m : Msg) (hen : s.enabled = true) (hx : ¬ Expiring s)
     (hm : (collectStep nodes now (elapsedStep now true s).2 (elapsedStep now true s).1).2 = some m)
     (h : subTick c nodes now true rq s = .ok s') : s'.notifs = s.notifs ++ [m] :=
   collected_is_queued c hk nodes now rq s s' m hen hx hm h
+
+/-! ### end to end: the flow of a subscription only grows at its end -/
+
+/-- the queued notifications of subscription `sid` (none if it does not exist) -/
+def notifsOf (subs : List Subn) (sid : Nat) : List Msg :=
+  match getSub subs sid with
+  | some s => s.notifs
+  | none => []
+
+def transMsgs (t : List (Nat × Req × Msg)) (sid : Nat) : List Msg :=
+  (t.filter (fun e => e.1 = sid)).map (·.2.2)
+
+def respMsgs (rs : List Resp) (sid : Nat) : List Msg :=
+  (rs.filter (fun r => r.subId = sid)).map (·.msg)
+
+def sentMsgs (sent : List (Nat × Msg)) (sid : Nat) : List Msg :=
+  (sent.filter (fun p => p.1 = sid)).map (·.2)
+
+/-- everything of subscription `sid` that was handed to the transport, is queued as a response, or is
+still queued in the subscription — in this order -/
+def flow (g : G) (sid : Nat) : List Msg :=
+  sentMsgs g.sent sid ++ respMsgs g.ss.resps sid ++ notifsOf g.ss.subs sid
+
+theorem getSub_updSub (subs : List Subn) (s : Subn) (sid : Nat) :
+    getSub (updSub subs s) sid =
+      if sid = s.id then (if hasSub subs sid then some s else none) else getSub subs sid := by
+  induction subs with
+  | nil => simp [updSub, getSub, hasSub]
+  | cons t rest ih =>
+    unfold updSub getSub hasSub at *
+    simp only [List.map_cons, List.find?_cons, List.any_cons]
+    by_cases h1 : t.id = s.id
+    · by_cases h2 : sid = s.id
+      · subst h2; simp [h1]
+      · have : ¬ t.id = sid := by omega
+        have h3 : ¬ s.id = sid := fun e => h2 e.symm
+        simp only [h1, if_true, h3, decide_false, h2, if_false, this]
+        simpa [h2] using ih
+    · by_cases h2 : sid = s.id
+      · subst h2
+        simp only [h1, if_false, decide_false, Bool.false_or, if_true]
+        simpa using ih
+      · simp only [h1, if_false, h2]
+        by_cases h3 : t.id = sid
+        · simp [h3]
+        · simp only [h3, decide_false]
+          simpa [h2] using ih
+
+theorem getSub_none_iff (subs : List Subn) (sid : Nat) : getSub subs sid = none ↔ hasSub subs sid = false := by
+  unfold getSub hasSub
+  induction subs with
+  | nil => simp
+  | cons t rest ih =>
+    by_cases h : t.id = sid <;> simp [List.find?_cons, h, ih]
+
+theorem getSub_id (subs : List Subn) (sid : Nat) (s : Subn) (h : getSub subs sid = some s) : s.id = sid := by
+  unfold getSub at h
+  have := List.find?_some h
+  simpa using this
+
+theorem notifsOf_updSub (subs : List Subn) (s : Subn) (sid : Nat) :
+    notifsOf (updSub subs s) sid = if sid = s.id ∧ hasSub subs sid = true then s.notifs else notifsOf subs sid := by
+  unfold notifsOf
+  rw [getSub_updSub]
+  by_cases h : sid = s.id
+  · subst h
+    by_cases h2 : hasSub subs s.id = true
+    · simp [h2]
+    · have : getSub subs s.id = none := (getSub_none_iff subs s.id).mpr (by simpa using h2)
+      simp [h2, this]
+  · simp [h]
+
+theorem getSub_filter_ne (subs : List Subn) (id sid : Nat) :
+    getSub (subs.filter (fun t => t.id ≠ id)) sid = if sid = id then none else getSub subs sid := by
+  unfold getSub
+  induction subs with
+  | nil => simp
+  | cons t rest ih =>
+    by_cases h1 : t.id = id
+    · rw [List.filter_cons_of_neg (by simpa using h1), ih]
+      by_cases h2 : sid = id
+      · simp [h2]
+      · have : ¬ t.id = sid := by omega
+        simp [h2, List.find?_cons, this]
+    · rw [List.filter_cons_of_pos (by simpa using h1)]
+      simp only [List.find?_cons]
+      by_cases h3 : t.id = sid
+      · have : ¬ sid = id := by omega
+        simp [h3, this]
+      · simp only [h3, decide_false]
+        exact ih
+
+theorem notifsOf_filter_ne (subs : List Subn) (id sid : Nat) :
+    notifsOf (subs.filter (fun t => t.id ≠ id)) sid = if sid = id then [] else notifsOf subs sid := by
+  unfold notifsOf
+  rw [getSub_filter_ne]
+  by_cases h : sid = id <;> simp [h]
+
+theorem getSub_map (subs : List Subn) (f : Subn → Subn) (hf : ∀ s, (f s).id = s.id) (sid : Nat) :
+    getSub (subs.map f) sid = (getSub subs sid).map f := by
+  unfold getSub
+  induction subs with
+  | nil => rfl
+  | cons t rest ih =>
+    simp only [List.map_cons, List.find?_cons, hf]
+    by_cases h : t.id = sid
+    · simp [h]
+    · simp only [h, decide_false]; exact ih
+
+theorem notifsOf_map (subs : List Subn) (f : Subn → Subn) (hf : ∀ s, (f s).id = s.id)
+    (hn : ∀ s, (f s).notifs = s.notifs) (sid : Nat) : notifsOf (subs.map f) sid = notifsOf subs sid := by
+  unfold notifsOf
+  rw [getSub_map subs f hf]
+  cases getSub subs sid <;> simp [hn]
+
+theorem notifsOf_append_new (subs : List Subn) (s : Subn) (hs : s.notifs = []) (sid : Nat) :
+    notifsOf (subs ++ [s]) sid = notifsOf subs sid := by
+  unfold notifsOf getSub
+  rw [List.find?_append]
+  cases h : List.find? (fun t => decide (t.id = sid)) subs with
+  | some x => simp
+  | none =>
+    simp only [Option.none_or, List.find?_cons]
+    by_cases h2 : s.id = sid <;> simp [h2, hs]
+
+theorem elapsedStep_id (now : Nat) (t : Bool) (s : Subn) :
+    (elapsedStep now t s).1.notifs = s.notifs ∧ (elapsedStep now t s).1.id = s.id := by
+  unfold elapsedStep
+  split
+  · simp
+  · split
+    · simp
+    · split
+      · simp
+      · split <;> simp
+
+theorem collectStep_id (nodes : List (Nat × Nat)) (now : Nat) (el : Bool) (s : Subn) :
+    (collectStep nodes now el s).1.notifs = s.notifs ∧ (collectStep nodes now el s).1.id = s.id := by
+  unfold collectStep
+  split
+  · simp
+  · simp only []
+    split <;> simp
+
+theorem updateState_id (c : Cfg) (s : Subn) (rpr : Bool) (p : Params) :
+    (updateState c s rpr p).1.notifs = s.notifs ∧ (updateState c s rpr p).1.id = s.id := by
+  unfold updateState
+  split
+  · simp
+  · split <;> (repeat' split) <;> simp [resetLife, resetKa, startTimer]
+
+theorem enqueue_appends (s s' : Subn) (m : Msg) (h : enqueueNotification s m = .ok s') :
+    s'.notifs = s.notifs ++ [m] ∧ s'.id = s.id := by
+  unfold enqueueNotification at h
+  split at h
+  · cases h
+  · cases h; exact ⟨rfl, rfl⟩
+
+theorem handleStateResult_appends (c : Cfg) (now : Nat) (s s' : Subn) (a : Action) (n : Option Msg)
+    (h : handleStateResult c now s a n = .ok s') : ∃ l, s'.notifs = s.notifs ++ l ∧ s'.id = s.id := by
+  have enq : ∀ (u : Subn) (m : Msg), u.notifs = s.notifs → u.id = s.id → enqueueNotification u m = .ok s' →
+      ∃ l, s'.notifs = s.notifs ++ l ∧ s'.id = s.id := by
+    intro u m h1 h2 h
+    obtain ⟨e1, e2⟩ := enqueue_appends u s' m h
+    exact ⟨[m], by rw [e1, h1], by rw [e2, h2]⟩
+  cases a with
+  | none =>
+    cases n with
+    | none => simp only [handleStateResult] at h; cases h; exact ⟨[], by simp, rfl⟩
+    | some m =>
+      simp only [handleStateResult] at h
+      split at h
+      · exact enq s m rfl rfl h
+      · cases h; exact ⟨[], by simp, rfl⟩
+  | keepAlive =>
+    cases n with
+    | none => simp only [handleStateResult] at h; refine enq _ _ ?_ ?_ h <;> rfl
+    | some m => simp only [handleStateResult] at h; refine enq _ _ ?_ ?_ h <;> rfl
+  | notifications =>
+    cases n with
+    | none => simp only [handleStateResult] at h; cases h; exact ⟨[], by simp, rfl⟩
+    | some m => simp only [handleStateResult] at h; exact enq s m rfl rfl h
+  | created =>
+    cases n with
+    | none => simp only [handleStateResult] at h; cases h; exact ⟨[], by simp, rfl⟩
+    | some m => simp [handleStateResult] at h
+  | expired =>
+    cases n with
+    | none => simp only [handleStateResult] at h; refine enq _ _ ?_ ?_ h <;> rfl
+    | some m =>
+      simp only [handleStateResult] at h
+      split at h
+      · refine enq _ _ ?_ ?_ h <;> rfl
+      · cases h
+
+/-- a tick of a subscription only appends to its queue of notifications -/
+theorem subTick_appends (c : Cfg) (nodes : List (Nat × Nat)) (now : Nat) (t rq : Bool) (s s' : Subn)
+    (h : subTick c nodes now t rq s = .ok s') : ∃ l, s'.notifs = s.notifs ++ l ∧ s'.id = s.id := by
+  unfold subTick at h
+  simp only [] at h
+  obtain ⟨a1, a2⟩ := elapsedStep_id now t s
+  obtain ⟨b1, b2⟩ := collectStep_id nodes now (elapsedStep now t s).2 (elapsedStep now t s).1
+  generalize collectStep nodes now (elapsedStep now t s).2 (elapsedStep now t s).1 = cs at h b1 b2
+  obtain ⟨s2, n⟩ := cs
+  simp only [] at h b1 b2
+  split at h
+  · obtain ⟨l, e1, e2⟩ := handleStateResult_appends c now _ s' _ _ h
+    have hf := fun p => updateState_id c s2 (!t) p
+    exact ⟨l, by rw [e1, (hf _).1, b1, a1], by rw [e2, (hf _).2, b2, a2]⟩
+  · cases h; exact ⟨[], by simp [b1, a1], by rw [b2, a2]⟩
+
+theorem transMsgs_append (a b : List (Nat × Req × Msg)) (sid : Nat) :
+    transMsgs (a ++ b) sid = transMsgs a sid ++ transMsgs b sid := by
+  simp [transMsgs, List.filter_append]
+
+theorem pairUp_transMsgs (sid sid' : Nat) (reqs : List Req) (ms : List Msg) (acc : List (Nat × Req × Msg)) :
+    transMsgs (pairUp sid reqs ms acc).2.2 sid' ++ (if sid' = sid then (pairUp sid reqs ms acc).2.1 else [])
+      = transMsgs acc sid' ++ (if sid' = sid then ms else []) := by
+  induction reqs generalizing ms acc with
+  | nil => cases ms <;> simp [pairUp]
+  | cons r reqs ih =>
+    cases ms with
+    | nil => simp [pairUp]
+    | cons m ms =>
+      simp only [pairUp]
+      rw [ih, transMsgs_append]
+      by_cases h : sid' = sid
+      · subst h; simp [transMsgs]
+      · have : ¬ sid = sid' := fun e => h e.symm
+        simp [transMsgs, h, this]
+
+/-- what is on its way for subscription `sid` inside a tick: already handed to the transmission queue,
+or still queued in the subscription -/
+def pend (ss : Sess) (trans : List (Nat × Req × Msg)) (sid : Nat) : List Msg :=
+  transMsgs trans sid ++ notifsOf ss.subs sid
+
+theorem visit_flow (c : Cfg) (t : Bool) (sid : Nat) (ids : List Nat) (ss ss' : Sess)
+    (trans trans' : List (Nat × Req × Msg)) (h : visit c t ids ss trans = .ok (ss', trans')) :
+    (∃ l, pend ss' trans' sid = pend ss trans sid ++ l) ∧ ss'.resps = ss.resps := by
+  induction ids generalizing ss trans with
+  | nil => simp only [visit] at h; cases h; exact ⟨⟨[], by simp⟩, rfl⟩
+  | cons id ids ih =>
+    simp only [visit] at h
+    split at h
+    · cases h
+    · rename_i s hs
+      split at h
+      · cases h
+      · rename_i s1 h1
+        obtain ⟨⟨l2, e2⟩, r2⟩ := ih _ _ h
+        refine ⟨?_, by simpa using r2⟩
+        obtain ⟨l1, n1, i1⟩ := subTick_appends c ss.nodes ss.now t (!ss.reqs.isEmpty) s s1 h1
+        have hid : s.id = id := getSub_id _ _ _ hs
+        have hhas : hasSub ss.subs id = true := by
+          cases hh : hasSub ss.subs id with
+          | true => rfl
+          | false => rw [(getSub_none_iff _ _).mpr hh] at hs; cases hs
+        have hpu := pairUp_transMsgs id sid ss.reqs s1.notifs trans
+        refine ⟨(if sid = id then l1 else []) ++ l2, ?_⟩
+        rw [e2]
+        simp only [pend] at *
+        by_cases hsid : sid = id
+        · subst hsid
+          simp only [if_true] at hpu ⊢
+          have hn0 : notifsOf ss.subs sid = s.notifs := by simp [notifsOf, hs]
+          have hnew : notifsOf (if s1.state = SState.closed ∧ (pairUp sid ss.reqs s1.notifs trans).2.1.isEmpty = true
+              then ss.subs.filter (fun t => t.id ≠ sid)
+              else updSub ss.subs { s1 with notifs := (pairUp sid ss.reqs s1.notifs trans).2.1 }) sid
+              = (pairUp sid ss.reqs s1.notifs trans).2.1 := by
+            split
+            · rename_i hc
+              rw [notifsOf_filter_ne]
+              simp only [if_true]
+              exact (List.isEmpty_iff.mp hc.2).symm
+            · rw [notifsOf_updSub]
+              simp [i1, hid, hhas]
+          skip
+          rw [hnew, hpu, hn0, n1]
+          simp
+        · simp only [hsid, if_false, List.append_nil, List.nil_append] at hpu ⊢
+          have hnew : notifsOf (if s1.state = SState.closed ∧ (pairUp id ss.reqs s1.notifs trans).2.1.isEmpty = true
+              then ss.subs.filter (fun t => t.id ≠ id)
+              else updSub ss.subs { s1 with notifs := (pairUp id ss.reqs s1.notifs trans).2.1 }) sid
+              = notifsOf ss.subs sid := by
+            split
+            · rw [notifsOf_filter_ne]; simp [hsid]
+            · rw [notifsOf_updSub]
+              have : ¬ sid = s1.id := by rw [i1, hid]; exact hsid
+              simp [this]
+          skip
+          rw [hnew, hpu]
+
+theorem transmit_flow (trans : List (Nat × Req × Msg)) (ss : Sess) (sid : Nat) :
+    respMsgs (transmit trans ss).resps sid = respMsgs ss.resps sid ++ transMsgs trans sid ∧
+    (transmit trans ss).subs = ss.subs := by
+  induction trans generalizing ss with
+  | nil => simp [transmit, transMsgs]
+  | cons x rest ih =>
+    obtain ⟨sd, r, m⟩ := x
+    simp only [transmit]
+    obtain ⟨e1, e2⟩ := ih { ss with
+      retrans := insertKey (sd, m.seq) m ss.retrans,
+      resps := ss.resps ++ [{ reqId := r.id, subId := sd, avail := availSeqs ss.retrans sd,
+                              more := rest.any (fun e => e.1 = sd), msg := m, results := r.results }] }
+    refine ⟨?_, e2⟩
+    rw [e1]
+    by_cases h : sd = sid <;> simp [respMsgs, transMsgs, List.filter_append, List.filter_cons, h]
+
+/-- the part of the flow that lives in the session -/
+def inSess (ss : Sess) (sid : Nat) : List Msg := respMsgs ss.resps sid ++ notifsOf ss.subs sid
+
+/-- **One tick of the session only appends to the flow of every subscription**: what was queued as a
+response or in the subscription stays, in the same order (moving from the subscription to the responses),
+and newly produced notifications come after it. -/
+theorem sessTick_flow (c : Cfg) (t : Bool) (ss ss' : Sess) (sid : Nat) (h : sessTick c t ss = .ok ss') :
+    ∃ l, inSess ss' sid = inSess ss sid ++ l := by
+  unfold sessTick at h
+  split at h
+  · cases h
+  · rename_i s1 trans hv
+    cases h
+    obtain ⟨⟨l, e1⟩, e2⟩ := visit_flow c t sid _ ss s1 [] trans hv
+    obtain ⟨f1, f2⟩ := transmit_flow trans s1 sid
+    refine ⟨l, ?_⟩
+    simp only [inSess]
+    rw [f1, f2, e2, List.append_assoc]
+    simp only [pend, transMsgs, List.filter_nil, List.map_nil, List.nil_append] at e1
+    show respMsgs ss.resps sid ++ (transMsgs trans sid ++ notifsOf s1.subs sid) = _
+    simp only [transMsgs]
+    rw [e1, List.append_assoc]
+
+theorem publish_flow (c : Cfg) (ss ss' : Sess) (rid : Nat) (acks : Option (List (Nat × Nat))) (res : PubRes)
+    (sid : Nat) (h : publish c ss rid acks = .ok (ss', res)) : ∃ l, inSess ss' sid = inSess ss sid ++ l := by
+  unfold publish at h
+  split at h
+  · cases h; exact ⟨[], by simp⟩
+  · simp only [] at h
+    split at h
+    · cases h
+    · rename_i s1 hpre
+      have h1 : ∃ l, inSess s1 sid = inSess ss sid ++ l := by
+        split at hpre
+        · exact sessTick_flow c false ss s1 sid hpre
+        · cases hpre; exact ⟨[], by simp⟩
+      obtain ⟨l1, e1⟩ := h1
+      split at h
+      · cases h; exact ⟨l1, e1⟩
+      · split at h
+        · cases h
+        · rename_i s2 ht
+          cases h
+          obtain ⟨l2, e2⟩ := sessTick_flow c false _ _ sid ht
+          refine ⟨l1 ++ l2, ?_⟩
+          rw [e2, ← List.append_assoc, ← e1]
+          cases acks <;> rfl
+
+theorem notifsOf_updSub_same (subs : List Subn) (k : Nat) (s s2 : Subn) (sid : Nat)
+    (hs : getSub subs k = some s) (hi : s2.id = s.id) (hn : s2.notifs = s.notifs) :
+    notifsOf (updSub subs s2) sid = notifsOf subs sid := by
+  rw [notifsOf_updSub]
+  by_cases h : sid = s2.id ∧ hasSub subs sid = true
+  · rw [if_pos h]
+    have hk : s.id = k := getSub_id _ _ _ hs
+    have : sid = k := by rw [h.1, hi, hk]
+    subst this
+    simp [notifsOf, hs, hn]
+  · rw [if_neg h]
+
+theorem flow_eq (g : G) (sid : Nat) : flow g sid = sentMsgs g.sent sid ++ inSess g.ss sid := by
+  simp [flow, inSess, List.append_assoc]
+
+/-- one operation of the history only appends to the flow of a subscription (unless it deletes it) -/
+theorem gstep_flow (c : Cfg) (maxQ : Nat) (g g' : G) (op : Op) (sid : Nat) (hd : op ≠ .deleteSub sid)
+    (h : gstep c maxQ g op = some g') : ∃ l, flow g' sid = flow g sid ++ l := by
+  have same : ∀ (ss' : Sess), inSess ss' sid = inSess g.ss sid →
+      ∃ l, flow { g with ss := ss' } sid = flow g sid ++ l := by
+    intro ss' e; exact ⟨[], by simp [flow_eq, e]⟩
+  cases op with
+  | createSub p i k l e =>
+    simp only [gstep] at h; cases h
+    apply same
+    simp only [inSess, createSub]
+    rw [notifsOf_append_new _ _ rfl]
+  | deleteSub sid' =>
+    simp only [gstep] at h; cases h
+    apply same
+    have hne : ¬ sid = sid' := fun e => hd (by rw [e])
+    unfold deleteSub
+    split
+    · simp only [inSess]; rw [notifsOf_filter_ne]; simp [hne]
+    · rfl
+  | setPublishing sid' e =>
+    simp only [gstep] at h; cases h
+    apply same
+    unfold setPublishing
+    split
+    · simp only [inSess]
+      rw [notifsOf_map]
+      · intro s; split <;> rfl
+      · intro s; split <;> rfl
+    · rfl
+  | createItem sid' hd' n q d m sp =>
+    simp only [gstep] at h; cases h
+    apply same
+    unfold createItem
+    split
+    · rfl
+    · rename_i s hs
+      simp only []
+      split
+      · simp only [inSess]; refine congrArg (respMsgs g.ss.resps sid ++ ·) (notifsOf_updSub_same _ _ _ _ _ hs ?_ ?_) <;> rfl
+      · simp only [inSess]; refine congrArg (respMsgs g.ss.resps sid ++ ·) (notifsOf_updSub_same _ _ _ _ _ hs ?_ ?_) <;> rfl
+  | deleteItem sid' iid =>
+    simp only [gstep] at h; cases h
+    apply same
+    unfold deleteItem
+    split
+    · rfl
+    · rename_i s hs
+      simp only []
+      split
+      · simp only [inSess]; refine congrArg (respMsgs g.ss.resps sid ++ ·) (notifsOf_updSub_same _ _ _ _ _ hs ?_ ?_) <;> rfl
+      · simp only [inSess]; refine congrArg (respMsgs g.ss.resps sid ++ ·) (notifsOf_updSub_same _ _ _ _ _ hs ?_ ?_) <;> rfl
+  | write n v => simp only [gstep] at h; cases h; exact same _ rfl
+  | timer dt =>
+    simp only [gstep] at h
+    split at h
+    · rename_i ss' ht
+      cases h
+      obtain ⟨l, e⟩ := sessTick_flow c true _ ss' sid ht
+      exact ⟨l, by simp only [flow_eq]; rw [e]; simp [inSess, List.append_assoc]⟩
+    · cases h
+  | publish rid acks =>
+    simp only [gstep] at h
+    split at h
+    · rename_i ss' hp
+      cases h
+      obtain ⟨l, e⟩ := publish_flow c _ _ rid acks _ sid hp
+      exact ⟨l, by simp only [flow_eq]; rw [e]; simp [List.append_assoc]⟩
+    · rename_i ss' r hne hp
+      cases h
+      obtain ⟨l, e⟩ := publish_flow c _ _ rid acks _ sid hp
+      exact ⟨l, by simp only [flow_eq]; rw [e]; simp [List.append_assoc]⟩
+    · cases h
+  | republish sid' seq =>
+    simp only [gstep] at h; cases h
+    apply same
+    unfold republish
+    split
+    · simp only [inSess]
+      rw [notifsOf_map]
+      · intro s; split <;> rfl
+      · intro s; split <;> rfl
+    · rfl
+  | take =>
+    simp only [gstep, takeResponses] at h; cases h
+    refine ⟨[], ?_⟩
+    simp [flow, sentMsgs, respMsgs, List.filter_append, List.filter_map, Function.comp_def, List.map_map]
+
+/-- **`delivery_exact_flow`, over every history**: for a subscription that the history does not delete,
+the flow — messages handed to the transport, then queued responses, then the subscription's own queue —
+only grows at its end.  A notification that entered the subscription's queue (`collected_is_queued`:
+every notification built from what the monitored items handed over does) keeps its position for ever:
+it is never dropped, duplicated or reordered on its way to the client. -/
+theorem delivery_exact_flow (c : Cfg) (maxQ : Nat) (sid : Nat) (ops : List Op) (g g' : G)
+    (hd : Op.deleteSub sid ∉ ops) (h : grun c maxQ g ops = some g') :
+    ∃ l, flow g' sid = flow g sid ++ l := by
+  induction ops generalizing g with
+  | nil => simp only [grun] at h; cases h; exact ⟨[], by simp⟩
+  | cons op ops ih =>
+    simp only [grun] at h
+    split at h
+    · rename_i g1 hs
+      obtain ⟨l1, e1⟩ := gstep_flow c maxQ g g1 op sid (fun e => hd (by rw [e]; exact List.mem_cons_self)) hs
+      obtain ⟨l2, e2⟩ := ih g1 (fun hm => hd (List.mem_cons_of_mem _ hm)) h
+      exact ⟨l1 ++ l2, by rw [e2, e1, List.append_assoc]⟩
+    · cases h
+
 
 /-! ### non-vacuity, the defect that was repaired -/
 
